@@ -9,9 +9,10 @@
      3. normalize_text_is_spec, normalize_to_text_is_spec, parsed_meets_hyps
      4. parsed_five_of_text, parsed_normal_text *)
 From Coq Require Import List NArith Bool Lia ZifyBool ZifyN Arith.
-From UP Require Import Base.Chars Model.Uri Model.Common Model.Normalize Model.Recompose Spec.NormalWf
-  Spec.Split Proofs.NormalizeProofs Proofs.NormalizeLink Proofs.DotSegments.
-From UP Require Spec.Normal Spec.Resolve.
+From UP Require Import Base.Chars Base.Regex Model.Uri Model.Common Model.Normalize Model.Recompose Model.Parse
+  Spec.NormalWf Spec.Split Spec.Unparse Proofs.NormalizeProofs Proofs.NormalizeLink Proofs.DotSegments
+  Proofs.ParseWfStep Proofs.ParseWf Proofs.ParseSplit.
+From UP Require Spec.Normal Spec.Resolve Proofs.ResolveProofs.
 Import ListNotations.
 Local Open Scope N_scope.
 
@@ -64,3 +65,140 @@ Lemma path_link_closed u :
   = Normal.guard_path (Normal.is_rootless (path_text u)) (is_host_set u)
       (Normal.path_normal (is_some (scheme u)) (is_host_set u) (path_text u)).
 Proof. exact (path_link rds_link_holds u). Qed.
+
+(* ================================================================ 2. the other components *)
+Module RP := ResolveProofs.
+
+Lemma scheme_link u : scheme (normalize 63 u) = omap (map Normal.lower) (scheme u).
+Proof.
+  rewrite (normalize_fields 63 u ltac:(discriminate)). cbn [scheme]. change (bit 63 M_SCHEME) with true. cbv iota.
+  destruct (scheme u) as [t|]; [|reflexivity]. cbn [omap]. rewrite lowercase_is_map_lower. reflexivity.
+Qed.
+
+Lemma query_link u : opt_pct_wf (query u) = true ->
+  query (normalize 63 u) = omap (Normal.pct_norm false) (query u).
+Proof.
+  intros H. rewrite (normalize_fields 63 u ltac:(discriminate)). cbn [query]. change (bit 63 M_QUERY) with true. cbv iota.
+  destruct (query u) as [t|]; [|reflexivity]. cbn [omap]. rewrite (fix_pct_spec t H). reflexivity.
+Qed.
+
+Lemma fragment_link u : opt_pct_wf (fragment u) = true ->
+  fragment (normalize 63 u) = omap (Normal.pct_norm false) (fragment u).
+Proof.
+  intros H. rewrite (normalize_fields 63 u ltac:(discriminate)). cbn [fragment]. change (bit 63 M_FRAGMENT) with true.
+  cbv iota. destruct (fragment u) as [t|]; [|reflexivity]. cbn [omap]. rewrite (fix_pct_spec t H). reflexivity.
+Qed.
+
+(* ---- the authority ---- *)
+(* no character of the text is one of [stops] (the boolean of Proofs/ParseSplit.v [avoid]) *)
+Definition avoidb (stops : list N) (t : text) : bool := forallb (fun c => negb (mem c stops)) t.
+Definition opt_avoidb (stops : list N) (o : option text) : bool :=
+  match o with Some t => avoidb stops t | None => true end.
+(* digits and dots *)
+Definition is_ip4_text (h : text) : bool := forallb (fun c => is_digit c || (c =? 46)) h.
+
+(* What the authority text of a URI object must look like for [Spec.Split.split_authority] to find the
+   object's own user info, host and port in it again, and for the host kinds to be the ones the text shows:
+     - a host is set only together with a host text (uriIsHostSet looks at the address data as well);
+     - no "@" in user info, host and port;
+     - registered name: no ":" and no "[" in the host text;
+     - IPv4: the host text consists of digits and dots (it is left alone by uriNormalizeSyntax);
+     - IPv6 literal: no "]" in the host text, which does not begin with "v" / "V";
+     - IPvFuture literal: no "]" in the host text, which begins with "v" / "V" and is the ipFuture range;
+     - exactly one host kind.
+   Every parsed object satisfies this (parsed_auth_wfb below). *)
+Definition auth_wfb (u : uri) : bool :=
+  match hostText u with
+  | None => negb (is_host_set u)
+  | Some h =>
+    opt_avoidb [64] (userInfo u) && avoidb [64] h && opt_avoidb [64] (portText u)
+    && match ip4 u, ip6 u, ipFuture u with
+       | None, None, None => avoidb [58] h && avoidb [91] h
+       | Some _, None, None => is_ip4_text h
+       | None, Some _, None => avoidb [93] h && negb (v_start h)
+       | None, None, Some f => avoidb [93] h && Resolve.text_eqb f h && v_start h
+       | _, _, _ => false
+       end
+  end.
+
+Lemma avoidb_notin k t : avoidb [k] t = true -> ~ In k t.
+Proof. intros H. apply (avoid_notin [k] t k H). cbn [mem]. rewrite N.eqb_refl. reflexivity. Qed.
+
+Lemma auth_normal_parts ui h (lit : bool) po :
+  opt_avoidb [64] ui = true -> avoidb [64] h = true -> opt_avoidb [64] po = true ->
+  (if lit then avoidb [93] h = true else avoidb [58] h = true /\ avoidb [91] h = true) ->
+  Normal.auth_normal (opt_post ui [64] ++ (if lit then [91] ++ h ++ [93] else h) ++ opt_pre [58] po)
+  = (match ui with Some u => Normal.pct_norm false u ++ [64] | None => [] end)
+    ++ (if lit then 91 :: (if v_start h then map Normal.lower h else h) ++ [93] else Normal.pct_norm true h)
+    ++ (match po with Some p => 58 :: p | None => [] end).
+Proof.
+  intros Hui Hh Hpo Hl. unfold Normal.auth_normal.
+  rewrite (split_authority_parts ui h lit po).
+  - destruct lit; [|reflexivity]. f_equal. f_equal. unfold v_start. destruct h as [|c r]; [reflexivity|].
+    cbn [head_is]. reflexivity.
+  - destruct ui; [exact Hui|exact I].
+  - apply avoidb_notin. exact Hh.
+  - destruct po as [p|]; [|exact I]. cbn [opt_ok]. apply avoidb_notin. exact Hpo.
+  - destruct lit; exact Hl.
+Qed.
+
+Lemma is_ip4_text_avoid k h : is_digit k = false -> k <> 46 -> is_ip4_text h = true -> avoidb [k] h = true.
+Proof.
+  intros Hk Hd. unfold is_ip4_text, avoidb. apply forallb_mono. intros c Hc. cbn [mem]. rewrite orb_false_r.
+  apply negb_true_iff. apply N.eqb_neq. intros E. subst c. rewrite Hk in Hc. cbn [orb] in Hc.
+  apply N.eqb_eq in Hc. contradiction.
+Qed.
+
+(* a dotted quad has neither upper-case letters nor percent-encodings *)
+Lemma pct_norm_ip4_text h : is_ip4_text h = true -> Normal.pct_norm true h = h.
+Proof.
+  induction h as [|c r IH]; intros H; [reflexivity|].
+  unfold is_ip4_text in H. cbn [forallb] in H. apply andb_prop in H. destruct H as [Hc Hr].
+  assert (c <> 37) as H37 by (clear - Hc; arith).
+  rewrite (pct_norm_other true c r H37). rewrite (IH Hr). f_equal. clear - Hc. arith.
+Qed.
+
+Lemma text_eqb_eq a b : Resolve.text_eqb a b = true -> a = b.
+Proof. apply text_eqb_true. Qed.
+
+Lemma auth_link u : uri_pct_wf u = true -> auth_wfb u = true ->
+  RP.auth_text (normalize 63 u) = omap Normal.auth_normal (RP.auth_text u).
+Proof.
+  intros Hwf Ha. rewrite (normalize_full_fields u Hwf).
+  assert (opt_pct_wf (userInfo u) = true) as _ by (unfold uri_pct_wf in Hwf; repeat (apply andb_prop in Hwf; destruct Hwf as [Hwf ?]); exact Hwf).
+  destruct u as [sc ui ht i4 i6 ifu po ps qu fr ab ow].
+  unfold auth_wfb in Ha. unfold RP.auth_text, RP.host_written, is_host_set, is_regname.
+  cbn [scheme userInfo hostText ip4 ip6 ipFuture portText pathSegs query fragment absolutePath owner] in Ha |- *.
+  destruct ht as [h|].
+  2:{ unfold is_host_set in Ha. cbn [hostText ip4 ip6 ipFuture] in Ha.
+      destruct i4, i6, ifu; try discriminate Ha. reflexivity. }
+  apply andb_prop in Ha. destruct Ha as [Ha Hk]. apply andb_prop in Ha. destruct Ha as [Ha Hpo].
+  apply andb_prop in Ha. destruct Ha as [Hui Hh].
+  assert (forall (lit : bool) (x : text),
+    (match ui with Some i => i ++ [64] | None => [] end) ++ (if lit then [91] ++ x ++ [93] else x)
+      ++ (match po with Some p => 58 :: p | None => [] end)
+    = opt_post ui [64] ++ (if lit then [91] ++ x ++ [93] else x) ++ opt_pre [58] po) as Eform
+    by (intros; destruct ui, po; reflexivity).
+  destruct i4 as [o|], i6 as [b|], ifu as [f|]; try discriminate Hk.
+  - (* IPv4 *)
+    cbn [is_some orb negb andb omap].
+    rewrite (Eform false h). rewrite (auth_normal_parts ui h false po Hui Hh Hpo).
+    + rewrite (pct_norm_ip4_text h Hk). destruct ui; reflexivity.
+    + split; apply is_ip4_text_avoid; try exact Hk; try reflexivity; discriminate.
+  - (* IPv6 literal: the host text is left alone *)
+    apply andb_prop in Hk. destruct Hk as [H93 Hv]. apply negb_true_iff in Hv.
+    cbn [is_some orb negb andb omap].
+    rewrite (Eform true h). rewrite (auth_normal_parts ui h true po Hui Hh Hpo H93). rewrite Hv.
+    destruct ui; reflexivity.
+  - (* IPvFuture literal: lower case *)
+    apply andb_prop in Hk. destruct Hk as [Hk Hv]. apply andb_prop in Hk. destruct Hk as [H93 Ef].
+    apply text_eqb_eq in Ef. subst f.
+    cbn [is_some orb negb andb omap].
+    rewrite (Eform true h). rewrite (auth_normal_parts ui h true po Hui Hh Hpo H93). rewrite Hv.
+    destruct ui; reflexivity.
+  - (* registered name *)
+    apply andb_prop in Hk. destruct Hk as [H58 H91].
+    cbn [is_some orb negb andb omap].
+    rewrite (Eform false h). rewrite (auth_normal_parts ui h false po Hui Hh Hpo (conj H58 H91)).
+    destruct ui; reflexivity.
+Qed.
